@@ -126,6 +126,12 @@ func NewFullRT(h host.Host, protocolPrefix protocol.ID, options ...Option) (*Ful
   ensures [internal-configured-limit] imp(result1 == nil, result0 != nil && result0.ipDiversityFilterLimit == $limit && result0.bucketSize == $k)
   ghost at before call(MsgSenderBuilder): assert(dhtcfg.BucketSize > 0 && fullrtcfg.ipDiversityFilterLimit >= 0)
   ghost at assign(rt): $limit = fullrtcfg.ipDiversityFilterLimit; $k = dhtcfg.BucketSize
+  # the limit of the instance is exactly what the options left in the config
+  # (default before the options run; 0 = disabled stays 0, it is not a "unset")
+  ghostvar $optLimit int = any
+  ghost at before call(apply): assert(fullrtcfg.ipDiversityFilterLimit == amino.DefaultMaxPeersPerIPGroup)
+  ghost at call(Validate): $optLimit = fullrtcfg.ipDiversityFilterLimit
+  ghost at before call(MsgSenderBuilder): assert(fullrtcfg.ipDiversityFilterLimit == $optLimit)
   ghost at call(Subscribe): $subMade = ($ret1 == nil)
   ghost at call(cancel): $cancelled = true
   ghost at call(Close): $subClosed = true
